@@ -350,13 +350,9 @@ func (cs *Contracts) LoadLines(pkg string, lines []string, wheres []string) erro
 			cur = nil
 		case "ghostfield":
 			if len(fields) != 3 {
-				return fmt.Errorf("%s: ghostfield <name> <int|bool>", where)
+				return fmt.Errorf("%s: ghostfield <name> <type>", where)
 			}
-			if fields[2] == "bool" {
-				cs.GhostFields[fields[1]] = "Bool"
-			} else {
-				cs.GhostFields[fields[1]] = "Int"
-			}
+			cs.GhostFields[fields[1]] = fields[2]
 			cur = nil
 		case "globalinv":
 			idx := strings.Index(rest, ":")
